@@ -103,6 +103,16 @@ def run(ctx):
             two = [ctx.rng.random() < 0.5 for _ in range(m)]; alts = ["two-sided" if t_ else "greater" for t_ in two]
         kinds = [ctx.rng.choice(["np", "float", "int", "f32", "i64"]) for _ in range(m)]
         ip = ctx.rng.random() < 0.3
+        if ctx.rng.random() < 0.3 and all(abs(v) != float("inf") for r_ in tv for v in r_) and all(abs(v) != float("inf") for v in ts):
+            # float-valued tests take values between the whole numbers that integer-valued tests return (a running maximum carried
+            # from one kind into the other must keep its fraction)
+            tv = [list(r_) for r_ in tv]; ts = list(ts); ctx.count("fractional-statistics-next-to-integer-valued-tests")
+            for c_ in range(m):
+                if kinds[c_] in ("np", "float", "f32"):
+                    off_ = ctx.rng.choice([0.5, 0.25, -0.5])
+                    for r_ in tv:
+                        r_[c_] = r_[c_] + off_
+                    ts[c_] = ts[c_] + off_
         dup = None
         if m >= 2 and ctx.rng.random() < 0.2:      # the same test function listed twice (e.g. once one-sided and once two-sided)
             c1, c2 = ctx.rng.sample(range(m), 2); dup = (c1, c2); ctx.count("same-callable-listed-twice")
